@@ -3,6 +3,7 @@
 //! note: FilesystemStore (lightning-persister fs_store/common.rs): writes and removals of one key take effect in the order they were issued -- under the key's lock an operation whose version is not newer than the last one applied is skipped without touching the file, otherwise it runs and, only if it succeeded, becomes the last one applied; the recorded version never goes back
 //! trusted: R15 (deep slice): execute_locked_write: the block executed under the per-key write lock, verbatim as a function of the guarded counter (the RwLock write guard is taken as `&mut u64`), the version and the callback; clean_locks and the file operations in the callbacks (rename of the temporary file, fsync, remove_file) are dropped and not claimed; R7: `callback().map(|_| { S })` is written as a match on the callback's result (std semantics of Result::map; Verus has no `_` closure parameters)
 //! trusted: R15 (deep slice): write_version: the body of the closure that fills the temporary file, verbatim as a function of the file (a stub recording the operations applied to it; `&self` methods of std::fs::File written `&mut self`), the buffer and the optional mtime; creating the file, the rename under the key lock and the directory fsync are std::fs calls without an object to carry state and are not sliced
+//! trusted: R15 (deep slice): write_version (taken for a non-Windows target): the body of the closure run under the key's lock, verbatim as a function of a disk stub recording renames and directory flushes (R5: `fs::rename`, `fs::OpenOptions::new().read(true).open(dir)` and `sync_all` on the directory handle are its three methods) and the caller's clean-up flag
 //! trusted: the callback is any `FnOnce() -> Result<(), Error>`: the function may call it only under its precondition, which the contract grants only for a version newer than the recorded one (so "the callback ran" implies "the operation was not stale")
 //! assume: versions are issued in increasing order per key by get_new_version_and_lock_ref (an atomic counter, not verified); concurrency is the lock's (the contract is for the critical section)
 //! trusted: assume_specification for core::cmp::max / core::cmp::min (std definitions): present in every unit so that a change that introduces them is verified instead of being rejected by the tool
@@ -75,6 +76,56 @@ impl TmpFile {
     tmp_file.sync_all()?; Ok(())
 //@with
     Ok(())
+//@end
+// ---- write_version, under the key's lock (unix): the temporary file replaces the key by a rename, and the directory is flushed afterwards ----
+pub struct PathBuf { pub id: u64 }
+pub enum DiskOp { Renamed { from: u64, to: u64 }, DirSynced(u64) }
+pub struct Disk { pub ops: Ghost<Seq<DiskOp>> }
+pub struct DirFile { pub dir: u64 }
+impl Disk {
+    // std::fs::rename / OpenOptions::new().read(true).open(dir) / File::sync_all on the directory handle, recorded
+    #[verifier::external_body] pub fn rename(&mut self, from: &PathBuf, to: &PathBuf) -> (r: Result<(), Error>)
+        ensures r is Ok ==> final(self).ops@ == old(self).ops@.push(DiskOp::Renamed { from: from.id, to: to.id }), r is Err ==> final(self).ops@ == old(self).ops@ { unimplemented!() }
+    #[verifier::external_body] pub fn open_dir(&mut self, dir: &PathBuf) -> (r: Result<DirFile, Error>) ensures final(self).ops@ == old(self).ops@, r matches Ok(f) ==> f.dir == dir.id { unimplemented!() }
+    #[verifier::external_body] pub fn sync_dir(&mut self, f: &DirFile) -> (r: Result<(), Error>)
+        ensures r is Ok ==> final(self).ops@ == old(self).ops@.push(DiskOp::DirSynced(f.dir)), r is Err ==> final(self).ops@ == old(self).ops@ { unimplemented!() }
+}
+//@extract lightning-persister/src/fs_store/common.rs :: impl FilesystemStoreInner :: fn write_version
+//@cfg target_os="windows"=false
+//@slice R15
+    let write_res = self.execute_locked_write(inner_lock_ref, dest_file_path.clone(), version, || { $body:any }); if tmp_file_needs_cleanup {
+//@with
+    fn replace_the_key_by_the_temporary_file(disk: &mut Disk, tmp_file_path: &PathBuf, dest_file_path: &PathBuf, parent_directory: &PathBuf, tmp_file_needs_cleanup_: &mut bool) -> Result<(), Error> { $body }
+//@rw R5
+    fs::rename(&tmp_file_path, &dest_file_path)?;
+//@with
+    disk.rename(tmp_file_path, dest_file_path)?;
+//@rw R5
+    tmp_file_needs_cleanup = $v:seq;
+//@with
+    *tmp_file_needs_cleanup_ = $v;
+//@rw R5
+    let dir_file = fs::OpenOptions::new().read(true).open(&parent_directory)?;
+//@with
+    let dir_file = disk.open_dir(parent_directory)?;
+//@rw R5 ?
+    dir_file.sync_all()?;
+//@with
+    disk.sync_dir(&dir_file)?;
+//@ret r
+//@ensures P C19 the-key-is-replaced-by-one-rename-of-the-flushed-temporary-file-and-reported-written-only-after-the-directory-was-flushed-too
+    r is Ok ==> final(disk).ops@ == old(disk).ops@.push(DiskOp::Renamed { from: tmp_file_path.id, to: dest_file_path.id }).push(DiskOp::DirSynced(parent_directory.id)) && !*final(tmp_file_needs_cleanup_),
+    // the temporary file is left for the caller to delete exactly when it was not renamed
+    *final(tmp_file_needs_cleanup_) ==> final(disk).ops@ == old(disk).ops@,
+    *old(tmp_file_needs_cleanup_) && !*final(tmp_file_needs_cleanup_) ==> final(disk).ops@.len() > old(disk).ops@.len() && final(disk).ops@[old(disk).ops@.len() as int] == (DiskOp::Renamed { from: tmp_file_path.id, to: dest_file_path.id }),
+//@mutant write_reported_done_before_the_directory_is_flushed
+    dir_file.sync_all()?; Ok(())
+//@with
+    Ok(())
+//@mutant temporary_file_deleted_after_it_became_the_key
+    fs::rename(&tmp_file_path, &dest_file_path)?; tmp_file_needs_cleanup = false;
+//@with
+    fs::rename(&tmp_file_path, &dest_file_path)?; tmp_file_needs_cleanup = true;
 //@end
 }
 fn main() {}
